@@ -10,7 +10,8 @@ CFG = cfg('C18', extract='Ex_C18', driver='c18',
                'PGPy parse vs model parse; keys ENCODED BY THE MODEL (existing numbers, other creation time) read by Packet() and PGPKey.from_blob; '
                'histories copy / pubkey / protect / unlock / lock / binary + armored re-import (fixed plan quick, + random walks thorough) with the '
                'emitted secret packet compared to the model after every step; Issuer / IssuerFingerprint subpackets of stored, fresh data and '
-               'certification signatures and PKESK key ids; freshly generated keys. distinct = distinct canonical (suite, model input)',
+               'certification signatures and PKESK key ids; ECDH secret (sub)keys with NON-default KDF parameters written by the model encoder (= edited exported packet), '
+               'loaded by PGPy: private packet, pubkey() and PGPKey.pubkey agree on fingerprint / key id / exported body = RFC values; freshly generated keys. distinct = distinct canonical (suite, model input)',
           trusted=['Spec/Rfc4880_keys.v (RFC 4880 3.2 / 5.5.2 / 12.2, RFC 6637 6 / 9 / 11 transcription)',
                    'hashlib SHA-1 (primitive oracle; the same library PGPy calls)'],
           assumptions=['SHA-1 is a universally quantified function in the theorems (20 well-formed octets where the key id is concerned); hashing by '
